@@ -98,7 +98,8 @@ class FieldScalarModel(FieldModel):
         return self.val
     
     def post_randomize(self, visited):
-        if self.var is not None:
+        if self.var is not None and self.is_used_rand:
+            # (a field that acted as a constant keeps its value as it is)
             # Convert to a Python base-10 integer (unsigned)
             val = int(self.var.assignment, 2)
             
